@@ -7,42 +7,82 @@
    depend on them:
 
    C02_cache_transparent — the lifting lemma over an ABSTRACT object store: for any key type, any object type V with an
-     equivalence Req ("same profile up to zero frames", "same dictionary", "same segment tree" ...), any codec
-     (enc = Bytes, dec = FromBytes) and any default constructor, a client history of Put / Get / Get-then-mutate /
-     Delete with evictions (any fraction, any visiting order the LFU allows) and flush+reopen cycles inserted
-     anywhere returns reads equivalent to the reads of the same history without them.
-     Per-codec hypotheses, to be discharged per cache by the other builders' theorems:
-       (H1) Equivalence Req
-       (H2) forall k v, Req (dec k (enc k v)) v                      — round trip up to Req
-              trees:      C04_lossless (node count < MaxNodesSerialization, exact trees) with C12 for the dictionary
-              dicts:      C12 (keys stay valid; Req = "resolves every issued key to the same name")
-              segments:   C14 (s_codec_roundtrip)
-              dimensions: C02_dim_roundtrip below (Req = eq)
-       (H3) Forall (congr_op Req) (lower cops)                       — every function applied to an object through a
-              pointer (merge into a cached tree, Dimension.Insert/Delete, segment put, dictionary growth) maps
-              equivalent objects to equivalent objects
+     equivalence Req ("same self value on every stack", "same keys" ...), a validity predicate Pv (the domain on which
+     the codec round-trips), any codec (enc = Bytes, dec = FromBytes) and any default constructor, a client history
+     of Put / Get / Get-then-mutate / Delete with evictions (any fraction, any visiting order the LFU allows) and
+     flush+reopen cycles inserted anywhere returns reads equivalent to the reads of the same history without them.
+     Per-codec hypotheses (H1-H3 in the statement), discharged so far:
+       dimensions: C02_dimensions_transparent (codec model Model/DimCodec.v, round trip C02_dim_roundtrip, Req = eq)
+       trees:      C02_trees_transparent_self (Req = seq, serialized form abstracted by t_reload; the link from bytes
+                   to t_reload is tree-b's tree_reload_below_cap, which includes the dictionary-stability argument of C12)
+       dicts, segments: C12 dict_codec_roundtrip and C14 s_codec_roundtrip exist; not instantiated here.
      Side conditions carried by the shape of the history (is_sync): an eviction is followed by the completion of its
      saves before the next client operation (VerifEvict waits on the eviction barrier; excludes D11), no write-back
      (excludes D10: C02_writeback_refuted), a mutation directly follows the Get that returned the object.
-   NOT covered, found by the correspondence run: floor-scaled per-bucket trees are not "exact", so (H2) fails for them
-   with Req = "same totals": known finding scaled-totals-reloaded. *)
+   C02_step_simulation — the same as a one-step simulation, for clients that are not lists of operations.
+   C02_flush_order_keeps_names / _swapped_refuted — why Close flushes trees before dictionaries (abstract model).
+   NOT proved: the composition over the four caches inside the storage model (Model/Storage.v is written over plain
+   maps, not over an abstract KV).  The storage-level statement is checked on the implementation by the correspondence
+   run (two-run comparison).  Found there: totals of floor-scaled per-bucket trees are recomputed on decode — known
+   finding scaled-totals-reloaded; hence "seq", not "teq", in the trees instance. *)
 From Coq Require Import List NArith.
-From Pyro Require Import Model.Base Model.Varint Model.DimCodec Model.Lfu Model.Cache Proofs.CacheProofs Proofs.DimCodecProofs.
+From Pyro Require Import Model.Base Model.Varint Model.Tree Model.TreeCodec Model.DimCodec Model.Lfu Model.Cache Model.FlushOrder.
+From Pyro Require Import Proofs.CacheProofs Proofs.C02Lift Proofs.DimCodecProofs Proofs.FlushOrderProofs Proofs.TreeReloadProofs Proofs.C02Trees.
 Import ListNotations.
 
 Theorem C02_cache_transparent :
   forall (K V D : Type) (keq : forall a b : K, {a = b} + {a <> b})
          (dflt : K -> V) (enc : K -> V -> D) (dec : K -> D -> V)
+         (Pv : V -> Prop) (Req : V -> V -> Prop),
+  RelationClasses.Equivalence Req ->                         (* H1 *)
+  (forall k, Pv (dflt k)) ->                                  (* default objects are valid *)
+  (forall k v, Pv v -> Pv (dec k (enc k v))) ->               (* a reloaded valid object is valid *)
+  (forall k v, Pv v -> Req (dec k (enc k v)) v) ->            (* H2: round trip on valid objects *)
+  forall cops,
+  forallb (is_sync (K:=K) (V:=V)) cops = true ->
+  Forall (valid_op Pv Req) (lower cops) ->                    (* H3: puts of valid objects, congruent validity-preserving mutations *)
+  Forall2 Req (rets (fst (run keq dflt enc dec c_empty (lower cops))))
+              (rets (fst (run keq dflt enc dec c_empty (lower (filter (fun o => negb (is_maint o)) cops))))).
+Proof. exact (@cache_transparent_valid). Qed.
+Print Assumptions C02_cache_transparent.
+
+(* the same for a partial equivalence (validity folded into the relation); this is the form proved first *)
+Theorem C02_cache_transparent_per :
+  forall (K V D : Type) (keq : forall a b : K, {a = b} + {a <> b})
+         (dflt : K -> V) (enc : K -> V -> D) (dec : K -> D -> V)
          (Req : V -> V -> Prop),
-  RelationClasses.Equivalence Req ->
-  (forall k v, Req (dec k (enc k v)) v) ->
+  RelationClasses.PER Req ->
+  (forall k, Req (dflt k) (dflt k)) ->
+  (forall k v v', Req v v' -> Req (dec k (enc k v)) v') ->
   forall cops,
   forallb (is_sync (K:=K) (V:=V)) cops = true ->
   Forall (congr_op Req) (lower cops) ->
   Forall2 Req (rets (fst (run keq dflt enc dec c_empty (lower cops))))
               (rets (fst (run keq dflt enc dec c_empty (lower (filter (fun o => negb (is_maint o)) cops))))).
 Proof. exact (@cache_transparent). Qed.
-Print Assumptions C02_cache_transparent.
+Print Assumptions C02_cache_transparent_per.
+
+(* instance 1 — the dimensions cache: codec = Dimension.Bytes / FromBytes (Model/DimCodec.v), Req = eq;
+   no hypothesis about the codec is left *)
+Theorem C02_dimensions_transparent : forall cops,
+  forallb (is_sync (K:=bytes) (V:=dim)) cops = true ->
+  Forall dim_op (lower cops) ->
+  rets (fst (run bytes_eq_dec dm_dflt dm_enc dm_dec c_empty (lower cops))) =
+  rets (fst (run bytes_eq_dec dm_dflt dm_enc dm_dec c_empty (lower (filter (fun o => negb (is_maint o)) cops)))).
+Proof. exact dims_transparent. Qed.
+Print Assumptions C02_dimensions_transparent.
+
+(* instance 2 — the trees cache: valid = well-formed with total >= self + children, serialized form abstracted by
+   what it decodes to (t_reload, tree-b's tree_reload_below_cap), mutations = merging a valid tree into the cached one;
+   the reads agree on the self value of every stack (seq).  Totals are NOT claimed: scaled-totals-reloaded. *)
+Theorem C02_trees_transparent_self :
+  forall (K : Type) (keq : forall a b : K, {a = b} + {a <> b}) cops,
+  forallb (is_sync (K:=K) (V:=tnode)) cops = true ->
+  Forall tree_op (lower cops) ->
+  Forall2 seq (rets (fst (run keq tr_dflt tr_enc tr_dec c_empty (lower cops))))
+              (rets (fst (run keq tr_dflt tr_enc tr_dec c_empty (lower (filter (fun o => negb (is_maint o)) cops))))).
+Proof. exact (@trees_transparent_self). Qed.
+Print Assumptions C02_trees_transparent_self.
 
 (* one step of the simulation, for clients that are not lists of operations (the storage model calls the cache
    operation by operation): the invariant Inv relates a cache state to a plain map and is preserved by every
@@ -51,13 +91,14 @@ Theorem C02_step_simulation :
   forall (K V D : Type) (keq : forall a b : K, {a = b} + {a <> b})
          (dflt : K -> V) (enc : K -> V -> D) (dec : K -> D -> V)
          (Req : V -> V -> Prop),
-  RelationClasses.Equivalence Req ->
-  (forall k v, Req (dec k (enc k v)) v) ->
+  RelationClasses.PER Req ->
+  (forall k, Req (dflt k) (dflt k)) ->
+  (forall k v v', Req v v' -> Req (dec k (enc k v)) v') ->
   forall c m o rest,
   Inv keq dec Req c m (o :: rest) -> op_ok keq c o rest -> congr_op Req o ->
   out_rel Req (snd (step keq dflt enc dec c o)) (snd (spec_step keq dflt m o)) /\
   Inv keq dec Req (fst (step keq dflt enc dec c o)) (fst (spec_step keq dflt m o)) rest.
-Proof. exact (@step_sim). Qed.
+Proof. intros K V D keq dflt enc dec Req _. exact (@step_sim K V D keq dflt enc dec Req). Qed.
 Print Assumptions C02_step_simulation.
 
 Theorem C02_dim_roundtrip : forall d, keys_small d -> dim_dec (dim_enc d) = Some d.
@@ -72,6 +113,18 @@ Theorem C02_writeback_refuted :
 Proof. exact c02_writeback_refuted. Qed.
 Print Assumptions C02_writeback_refuted.
 
+(* symbol names survive a graceful restart because Close flushes the trees before the dictionaries
+   (abstract model of Model/FlushOrder.v: serializing a tree adds its new names to the in-memory dictionary;
+   "an issued key keeps resolving while the dictionary grows" is C12) ... *)
+Theorem C02_flush_order_keeps_names : forall m, reopen (close_real m) = Some (m_trees m).
+Proof. exact close_real_keeps_names. Qed.
+Print Assumptions C02_flush_order_keeps_names.
+
+(* ... and the order is not decorative: with the dictionaries flushed first a name that first appears at flush time is lost *)
+Theorem C02_flush_order_swapped_refuted : exists m, reopen (close_swapped m) <> Some (m_trees m).
+Proof. exact close_swapped_loses_names. Qed.
+Print Assumptions C02_flush_order_swapped_refuted.
+
 Example C02_cache_transparent_nonvacuous :
   (forall k v, w_req (w_id k (w_enc100 k v)) v) /\
   forallb (is_sync (K:=N) (V:=N)) w_transparent = true /\
@@ -79,6 +132,13 @@ Example C02_cache_transparent_nonvacuous :
   rets (fst (run N.eq_dec w_dflt w_enc100 w_id c_empty (lower w_transparent))) = [205; 8; 8; 108]%N /\
   rets (fst (run N.eq_dec w_dflt w_enc100 w_id c_empty (lower (filter (fun o => negb (is_maint o)) w_transparent)))) = [205; 208; 208; 308]%N.
 Proof. exact c02_transparent_nonvacuous. Qed.
+
+Example C02_trees_transparent_nonvacuous :
+  forallb (is_sync (K:=N) (V:=tnode)) wt_hist = true /\ Forall tree_op (lower wt_hist) /\
+  t_exactb wt_a = false /\
+  map t_total (rets (fst (run N.eq_dec tr_dflt tr_enc tr_dec c_empty (lower wt_hist)))) = [2; 4]%N /\
+  map t_total (rets (fst (run N.eq_dec tr_dflt tr_enc tr_dec c_empty (lower (filter (fun o => negb (is_maint o)) wt_hist))))) = [3; 5]%N.
+Proof. exact trees_transparent_nonvacuous. Qed.
 
 Example C02_dim_roundtrip_nonvacuous :
   keys_small [[97; 112; 112; 123; 125]; []; [255; 0]]%N /\
